@@ -63,6 +63,11 @@ def run(ck, rng, tier, prop="C01"):
             m = n + rng.randint(0, 3)
             kind = "general"
         X = gen_data(rng, n, m, kind)
+        if c in (4, 5):
+            # no centring, several workers, one cell NEXT TO the missing-value code but outside its window (an ordinary number
+            # for every kernel, threaded or not)
+            scaling, kind = -1, "general"
+            X[rng.randrange(n)][rng.randrange(m)] = (99999999.5, 99999998.6)[c - 4]
         from props import c02
         Xc = c02.preprocess(np.array(X), scaling)
         rank = int(np.linalg.matrix_rank(Xc, tol=1e-8 * max(1.0, np.abs(Xc).max())))
@@ -72,6 +77,8 @@ def run(ck, rng, tier, prop="C01"):
         if c < 4:
             npc = rank
         nproc = rng.choice((1, 1, 2, 3, 5, 8, 16))
+        if c in (4, 5):
+            nproc = (2, 4)[c - 4]
         New = [[rng.gauss(0, 1) for _ in range(m)] for _ in range(2)]
         lines.append("pca %s %s %d %d %d" % (vf.fmt_mat(X, m), vf.fmt_mat(New, m), scaling, npc, nproc))
         meta.append((X, New, scaling, npc, nproc, rank, kind))
